@@ -292,11 +292,91 @@ Open Scope string_scope.
 """
 
 
+SITE_HEADER = """(* GENERATED by translator/adapters_c11.py from sktime/forecasting/base/adapters/_statsmodels.py
+   (_StatsModelsAdapter._predict) -- do not edit, never committed.  Which positions of the wrapped
+   statsmodels results the adapter asks for (predict(start, end)) and which labels it selects. *)
+From Coq Require Import ZArith List.
+Require Import SkV.Lib.Base SkV.C11.Gen.
+Open Scope Z_scope.
+"""
+
+SITE_HORIZONS = ("fh", "self.fh")
+
+
+def adapter_site(repo):
+    """_StatsModelsAdapter._predict (base of ExponentialSmoothing, AutoETS, ThetaForecaster), by its
+    canonical decision tree (names of temporaries, tuple unpacking, P[0] / P[[0, -1]][0] do not matter):
+    on the return_pred_int=False path, with NO other test and no effect, the returned value must be
+        self._fitted_forecaster.predict(S, E).loc[<fh>.to_absolute(self.cutoff).to_pandas()]
+    with S / E = an end (first or last) of <fh>.to_absolute_int(self._y.index[0], self.cutoff).
+    Regenerated: which end goes to `start` and which to `end`, and the composition of the two
+    ForecastingHorizon conversions (already regenerated in C11/Gen.v) giving positions and labels.
+    Any other way to obtain the values (e.g. forecast(steps), which counts from the end of the wrapped
+    model's own data instead of from the cutoff) is an unknown shape: fail closed."""
+    from .naive_c11 import _decider, bound_args, select
+    rel = "sktime/forecasting/base/adapters/_statsmodels.py"
+    with open(os.path.join(repo, rel)) as f:
+        amod = ast.parse(f.read())
+    acls = find(amod, "_StatsModelsAdapter")
+    fn = find(acls, "_predict")
+    scope = C.Scope(cls=acls, mod=amod, repo=repo)
+    effs, leaf = select(C.of(fn, scope), _decider({"return_pred_int": False}), "_StatsModelsAdapter._predict")
+    _need(not effs and leaf[0] == "RET" and isinstance(leaf[1], ast.Subscript)
+          and isinstance(leaf[1].value, ast.Attribute) and leaf[1].value.attr == "loc",
+          "adapter: _predict must return <dense forecast>.loc[<labels>] without other effects")
+    labels = leaf[1].slice
+    _need(isinstance(labels, ast.Call) and isinstance(labels.func, ast.Attribute)
+          and labels.func.attr == "to_pandas" and not labels.args and not labels.keywords,
+          "adapter: labels are <fh>.to_absolute(self.cutoff).to_pandas()", labels)
+    lab = labels.func.value
+    _need(isinstance(lab, ast.Call) and isinstance(lab.func, ast.Attribute) and lab.func.attr == "to_absolute"
+          and _u(lab.func.value) in SITE_HORIZONS and _u(bound_args(lab, ["cutoff"])[0]) == "self.cutoff",
+          "adapter: labels are <fh>.to_absolute(self.cutoff).to_pandas()", labels)
+    dense = leaf[1].value.value
+    _need(isinstance(dense, ast.Call) and _u(dense.func) == "self._fitted_forecaster.predict",
+          "adapter: the dense forecast is self._fitted_forecaster.predict(start, end)", dense)
+    _need(not [k for k in dense.keywords if k.arg not in ("start", "end")] and len(dense.args) <= 2,
+          "adapter: predict(start, end) only", dense)
+    p_start, p_end = bound_args(dense, ["start", "end"])
+
+    def endpoint(e):
+        """P[[0, -1]][i]  or  P[0] / P[-1]  ->  (P, 'zfirst' | 'zlast')"""
+        if isinstance(e, ast.Subscript) and isinstance(e.value, ast.Subscript) \
+                and _u(e.value.slice) == "[0, -1]" and _u(e.slice) in ("0", "1", "-1", "-2"):
+            return e.value.value, "zfirst" if _u(e.slice) in ("0", "-2") else "zlast"
+        if isinstance(e, ast.Subscript) and _u(e.slice) in ("0", "-1"):
+            return e.value, "zfirst" if _u(e.slice) == "0" else "zlast"
+        raise Unsupported("adapter: start / end must be an end of the requested positions: %s" % _u(e))
+
+    ends = []
+    for e in (p_start, p_end):
+        v, which = endpoint(e)
+        _need(isinstance(v, ast.Call) and isinstance(v.func, ast.Attribute) and v.func.attr == "to_absolute_int"
+              and _u(v.func.value) in SITE_HORIZONS, "adapter: positions come from <fh>.to_absolute_int(...)", v)
+        a_start, a_cut = bound_args(v, ["start", "cutoff"])
+        _need(_u(a_start) == "self._y.index[0]" and _u(a_cut) == "self.cutoff",
+              "adapter: positions are counted from self._y.index[0] and placed by self.cutoff", v)
+        _need(_u(v.func.value) == _u(lab.func.value), "adapter: positions and labels of the same horizon", v)
+        ends.append(which)
+    out = [SITE_HEADER]
+    out.append("(* position (counted from the first remembered time stamp) of the relative step r *)")
+    out.append("Definition gen_adapter_position (first cutoff r : Z) : Z := "
+               "gen_fh_abs_int first (gen_fh_abs cutoff r).\n")
+    out.append("(* predict(start, end) of the wrapped results *)")
+    out.append("Definition gen_adapter_start (first cutoff : Z) (fh : list Z) : Z := "
+               "gen_adapter_position first cutoff (%s fh).\n" % ends[0])
+    out.append("Definition gen_adapter_end (first cutoff : Z) (fh : list Z) : Z := "
+               "gen_adapter_position first cutoff (%s fh).\n" % ends[1])
+    out.append("(* .loc[fh.to_absolute(self.cutoff).to_pandas()] *)")
+    out.append("Definition gen_adapter_label (cutoff r : Z) : Z := gen_fh_abs cutoff r.\n")
+    return "\n".join(out)
+
+
 def translate(repo):
     out = [HEADER]
     ets(repo, out)
     es(repo, out)
-    return {"C11/GenOpts.v": "\n".join(out)}
+    return {"C11/GenOpts.v": "\n".join(out), "C11/GenAdapter.v": adapter_site(repo)}
 
 
 if __name__ == "__main__":
